@@ -149,7 +149,14 @@ func (con *Connection) Read(b []byte) (int, error) {
 		return con.DecryptedRead(b)
 	}
 
-	return con.connection.Read(b)
+	n, err := con.connection.Read(b)
+	if n > 0 && con.getDecrypter() != nil {
+		// The session was secured while waiting for data, the received bytes are encrypted.
+		con.encrypted = append(con.encrypted, b[:n]...)
+		return con.DecryptedRead(b)
+	}
+
+	return n, err
 }
 
 // Close closes the connection and deletes the related session from the context.
